@@ -405,6 +405,10 @@ every scenario has at least one racing thread, so all are non-trivial; distinct 
             small.push(s.clone());
         }
     }
+    if args.opt("--only") == Some("credit") {
+        // C03's use of this runner: only the races between a writer taking credit and acknowledgements
+        small.retain(|s| !s.contains("-x"));
+    }
     let large: Vec<String> = FAMILY.iter().filter(|s| threads(s) > 3).map(|s| (*s).to_string()).collect();
     let par = std::thread::available_parallelism().map_or(4, std::num::NonZero::get).min(8);
     let (threads_small, large_bound) = match args.tier {
